@@ -6,7 +6,7 @@
    satisfiable (codec_laws_satisfiable). *)
 From Coq Require Import List NArith Bool Permutation.
 From V Require Import lib.Strs gen.Consts model.ClientRead model.SelfEnc
-  proofs.SelfEncPartition proofs.SelfEncLists proofs.SelfEnc proofs.SelfEncMore.
+  proofs.SelfEncPartition proofs.SelfEncLists proofs.SelfEnc proofs.SelfEncMore proofs.SelfEncBound.
 Import ListNotations.
 Open Scope N_scope.
 
@@ -100,6 +100,14 @@ Theorem produced_chunk_le_max_refuted :
   exists C MAX fuel d r c, codec_ok C /\ 1 <= MAX /\ encrypt C MAX fuel d = inl r /\
     In c (all_chunks r) /\ MAX < lenN (k_value c).
 Proof. exact produced_chunk_le_max_refuted_lemma. Qed.
+
+(* outside that class -- a transform that never outputs more than MAX bytes for a source chunk of at
+   most MAX + 1 bytes (the largest the partition produces) -- every produced chunk of every level fits *)
+Theorem produced_chunk_le_max_outside_known : forall C MAX fuel d r,
+  1 <= MAX -> encrypt C MAX fuel d = inl r ->
+  (forall k x, lenN x <= MAX + 1 -> lenN (c_tr C k x) <= MAX) ->
+  forall c, In c (all_chunks r) -> lenN (k_value c) <= MAX.
+Proof. exact produced_le_max_outside_known_lemma. Qed.
 
 (* inputs of fewer than MIN_ENCRYPTABLE_BYTES = 3 bytes are rejected *)
 Theorem too_small_rejected : forall C MAX fuel d, lenN d < 3 -> encrypt C MAX fuel d = inr ETooSmall.
